@@ -160,6 +160,10 @@ def build(backend):
         if other != backend:
             add("md-other-backend", "ds.Select(lambda e: e.Things('A').Count())", [], md=[decl(other, "Things", THING[other][0], THING[other][1])], expect="refuse")
             add("md-other-backend-unused", f"ds.Select(lambda e: e.{first}('A').Count())", [], md=[decl(other, "Things", THING[other][0], THING[other][1])], expect="refuse")
+            # ... also when the same name is declared for THIS backend as well, before, after or around it
+            fo = decl(other, "Things", THING[other][0], THING[other][1])
+            for on, order in (("own-then-foreign", [good, fo]), ("foreign-then-own", [fo, good]), ("own-foreign-own", [good, fo, dict(good)])):
+                add(f"md-other-backend-{on}", "ds.Select(lambda e: e.Things('A').Count())", [], md=order, expect="refuse")
     for drop in ("name", "include_files", "container_type", "contains_collection", "element_type"):
         add(f"md-missing-{drop}", "ds.Select(lambda e: e.Things('A').Count())", [], md=[decl(backend, "Things", ct, et, drop=drop)], expect="refuse")
     # a key that is only legal in ANOTHER backend's collection declaration
